@@ -768,7 +768,8 @@ def c10_catalogue_repeat(res, c, rng):
             warnings.simplefilter("ignore")
             with onp.errstate(all="ignore"):
                 try:
-                    vjp, _ = make_vjp(acall, x0)
+                    vjp, yA = make_vjp(acall, x0)
+                    hyA = vhash(yA)  # the primal result handed to the caller (with out=: the caller's own buffer)
                     g1, g2 = common.rand_like(rng, y0), common.rand_like(rng, y0)
                     # a scalar output accepts a 0-d ndarray cotangent as well (it is what grad() passes):
                     # unlike a NumPy scalar it is mutable
@@ -788,6 +789,8 @@ def c10_catalogue_repeat(res, c, rng):
                         return _viol(res, sig, "foreign_write", case, "a previously returned VJP result was modified by a later call")
                     if vhash([g1, g2]) != hg:
                         return _viol(res, sig, "foreign_write", case, "cotangent modified")
+                    if vhash(yA) != hyA:
+                        return _viol(res, sig, "foreign_write", case, "the primal result returned by make_vjp was modified by a later call of the VJP function")
                     _cnt(res, "catalogue_vjp_repeats")
                     # a fresh closure whose FIRST cotangents are zero on part of the output (what jacobian does:
                     # one basis vector after the other): a decision a rule takes from the cotangent's value must be
